@@ -10,7 +10,7 @@ dout=$(VERIF_SCALE=$scale VERIF_EVIDENCE_OUT="$tmp" VERIF_VARIANT=rt-dbg "$bin" 
 echo "$dout" | grep -E "^\s+(runs=|\[C01\])" | sed 's/^ */  [C01 debug-profile] /' | cut -c1-400
 echo "$dout" | grep -E "^VIOLATION" 
 [ $drc -eq 1 ] && rc=1
-[ $drc -eq 2 ] && { echo "HARNESS-ERROR debug-profile run failed" >&2; exit 2; }
+[ $drc -eq 2 ] && [ $rc -eq 0 ] && { echo "HARNESS-ERROR debug-profile run failed" >&2; exit 2; }
 dcalls=$(sed -n 's/.*"parse_calls_total": \([0-9]*\).*/\1/p' "$tmp" | head -1); rm -f "$tmp"
 # Miri batch (crate as is: SWAR under Miri)
 mout=$(run_miri "$VERIF_DIR/sim" "" "" miri C01 0 "$mruns" "$SEED")
